@@ -271,9 +271,18 @@ pub fn gen_case(t: &mut Tape) -> Case {
     for m in &trait_methods {
         src.push_str(&format!("    {};\n", m.sig(false).replace("u: U", u_decl)));
     }
+    // (the recording provider may override it - then the override is what `Impl<T>` has to reach - and, with static
+    // selectors, the method may be one for sized implementors only)
+    let dflt_overridden = dflt.is_some() && t.flip();
+    let dflt_sized = dflt.is_some() && !dynamic && t.chance(1, 3);
+    let dflt_where = if dflt_sized { " where Self: Sized" } else { "" };
+    let mut dflt_override_impl = String::new();
     if let Some(dasync) = dflt {
         let (q, y) = if dasync { ("async ", "rt::yield_once().await; ") } else { ("", "") };
-        src.push_str(&format!("    {q}fn dflt(&self, x: i32, y: i32) -> String {{ {y}let __r = format!(\"DFLT|{{}}|{{}},{{}}\", rt::addr(self), x, y); rt::trace(__r.clone()); __r }}\n"));
+        src.push_str(&format!("    {q}fn dflt(&self, x: i32, y: i32) -> String{dflt_where} {{ {y}let __r = format!(\"DFLT|{{}}|{{}},{{}}\", rt::addr(self), x, y); rt::trace(__r.clone()); __r }}\n"));
+        if dflt_overridden {
+            dflt_override_impl = format!("    {q}fn dflt(&self, x: i32, y: i32) -> String{dflt_where} {{ {y}let __r = format!(\"OVERRIDDEN|{{}}|{{}},{{}}\", rt::addr(self), x, y); rt::trace(__r.clone()); __r }}\n");
+        }
     }
     src.push_str(assoc_decl);
     src.push_str(borrow_decl);
@@ -301,6 +310,7 @@ pub fn gen_case(t: &mut Tape) -> Case {
         src.push_str(phantom_impl);
         src.push_str(selfless_impl);
         src.push_str(mut_impl);
+        src.push_str(&dflt_override_impl);
         src.push_str("}\n");
     }
     // application types per selector
@@ -503,6 +513,12 @@ pub fn gen_case(t: &mut Tape) -> Case {
     }
     if selfless_impl_named {
         classes.push("associated_fn_whose_first_parameter_is_named___impl");
+    }
+    if dflt_overridden {
+        classes.push("defaulted_method_overridden_by_the_provider");
+    }
+    if dflt_sized {
+        classes.push("defaulted_method_where_self_sized");
     }
     if mut_method {
         classes.push(if mut_async { "mut_self_method_async_under_maybe_send" } else { "mut_self_method" });
